@@ -365,6 +365,14 @@ def rule_e(rep: Report, idx: SourceIndex, tier: str) -> None:
 					r.ok(key + ':reraise-bound', where)
 					continue
 				ex_key = f'{rel}:{q}:{name}'
+				if ex_key not in RAISE_EXEMPT and f.cls is not None and f.name.startswith('_') and not f.name.endswith('__'):
+					# a raise moved into a private helper keeps the triage of the methods it was extracted from: every caller in the class must be triaged for the same exception
+					callers = [g for defs_ in f.cls.methods.values() for g in defs_ if g is not f and any(isinstance(c_, ast.Call) and isinstance(c_.func, ast.Attribute) and c_.func.attr == f.name for c_ in ast.walk(g.node))]
+					ckeys = [f'{rel}:{g.qualname}:{name}' for g in callers]
+					if callers and all(k in RAISE_EXEMPT for k in ckeys):
+						used.update(ckeys)
+						r.ok(key, where, message=f'exempt through its callers: {RAISE_EXEMPT[ckeys[0]]}')
+						continue
 				if ex_key in RAISE_EXEMPT:
 					used.add(ex_key)
 					r.ok(key, where, message=f'exempt: {RAISE_EXEMPT[ex_key]}')
